@@ -50,12 +50,30 @@ def gen_evaluator(rng, vi):
     k = rng.choice(["cb", "cb", "cb-seed", "cb-record", "rec", "rec", "func", "cb-ips", "rejection"])
     return {"kind": k, "tag": f"V{vi}", "seed": rng.randrange(1, 20), "nrows": rng.choice([2, 4, 6])}
 
+def policy_sharing_spec(rng):
+    """a learner listed in exactly ONE triple (so it is trained in place by an in-process run) that is also the logging policy of the
+       environment of a LATER triple which is evaluated off-policy: the logged data must be those of the pristine policy"""
+    g0 = gen_env_group(rng, 0); g1 = gen_env_group(rng, 1)
+    for g in (g0, g1):
+        g["filters"] = [f for f in g["filters"] if f[0] in ("chunk", "cache", "shuffle", "take", "sort", "binary")]
+        if g["kind"] == "lambda-sparse": g["kind"] = "lambda"
+    g1["filters"].append(["logged_lrn", 0, rng.randrange(1, 9)])
+    lrns = [gen_learner(rng, 0), gen_learner(rng, 1)]
+    lrns[0]["kind"] = rng.choice(["stateful-ap", "stateful-pmf", "epsilon", "ucb"])
+    vals = [{"kind": "cb", "tag": "V0", "seed": 1, "nrows": 2}, {"kind": rng.choice(["cb-ips", "rejection"]), "tag": "V1", "seed": rng.randrange(1, 20), "nrows": 2}]
+    return {"groups": [g0, g1], "lrns": lrns, "vals": vals, "seed": rng.choice([1, 7, 42, 0]), "triples": [[0.0, 0, 0], [0.5, 1, 1]], "policy_sharing": True}
+
 def gen_spec(rng, max_groups=3, max_lrns=3, max_vals=2):
     groups = [gen_env_group(rng, i) for i in range(rng.randint(1, max_groups))]
     lrns = [gen_learner(rng, i) for i in range(rng.randint(1, max_lrns))]
     vals = [gen_evaluator(rng, i) for i in range(rng.randint(1, max_vals))]
     for v in [v for v in vals if v["kind"] == "func"][1:]: v["kind"] = "rec"     # the bare function is one object: list it once
-    if any(f[0] == "logged" for g in groups for f in g["filters"]) and rng.random() < .8:
+    # a learner of the experiment is also the logging policy of an environment (kinds that answer with a probability)
+    for g in groups:
+        ok = [i for i, l in enumerate(lrns) if l["kind"] in ("stateful-ap", "stateful-pmf", "stateful-info", "epsilon", "ucb", "random", "fixed")]
+        if ok and rng.random() < .12 and not any(f[0] in ("logged", "batch", "materialize") for f in g["filters"]):
+            g["filters"].append(["logged_lrn", rng.choice(ok), rng.randrange(1, 9)])
+    if any(f[0] in ("logged", "logged_lrn") for g in groups for f in g["filters"]) and rng.random() < .8:
         vals[-1]["kind"] = rng.choice(["cb-ips", "rejection"])                     # logged data is actually used by an off-policy evaluator
     spec = {"groups": groups, "lrns": lrns, "vals": vals, "seed": rng.choice([1, 7, 42, 0]), "triples": "cross"}
     # the filters of the first group are applied to the union of the first two data sets by ONE fluent call each
@@ -94,14 +112,14 @@ def build_base(g):
 
 def lam_reward_any(i, c, a): return float((a + i) % 3 == 0)
 
-def build_envs(g, base=None):
+def build_envs(g, base=None, lrns=None):
     from coba.environments import Environments
     from vf import components as comp
     k = g["kind"]
     if base is not None: envs = base
     elif k == "lambda-sparse": envs = build_base(g)
     else: envs = _build_plain_base(g)
-    return list(_apply_filters(envs, g["filters"]))
+    return list(_apply_filters(envs, g["filters"], lrns))
 
 def _build_plain_base(g):
     from coba.environments import Environments
@@ -115,7 +133,7 @@ def _build_plain_base(g):
     else: raise ValueError(k)
     return envs.params({"tag": g["tag"]})
 
-def _apply_filters(envs, filters):
+def _apply_filters(envs, filters, lrns=None):
     from vf import components as comp
     for f in filters:
         if   f[0] == "chunk":     envs = envs.chunk()
@@ -139,6 +157,10 @@ def _apply_filters(envs, filters):
         elif f[0] == "logged":
             from coba.learners import RandomLearner
             envs = envs.logged(RandomLearner(seed=f[1]), seed=float(f[1]))
+        elif f[0] == "logged_lrn":
+            # the logging policy is one of the experiment's own learner OBJECTS (f[1] = its index): an object shared between an
+            # environment of one triple and the learner slot of another
+            envs = envs.logged(lrns[f[1] % len(lrns)], seed=float(f[2]))
     return envs
 
 def build_learner(l, fail=None):
@@ -176,16 +198,16 @@ def build_experiment(spec, side=None, faults=None, only_triple=None):
     faults = faults or {}
     envs = []
     groups = list(spec["groups"])
+    lrns = [build_learner(l, tuple(faults.get("lrn", {}).get(str(i))) if faults.get("lrn", {}).get(str(i)) else None) for i, l in enumerate(spec["lrns"])]
     if spec.get("combine") and len(groups) >= 2:
         g0, g1 = groups[0], groups[1]
         b0 = build_base(g0) or _build_plain_base(g0); b1 = build_base(g1) or _build_plain_base(g1)
-        envs.extend(build_envs(g0, base=b0 + b1))
+        envs.extend(build_envs(g0, base=b0 + b1, lrns=lrns))
         groups = groups[2:]
-    for g in groups: envs.extend(build_envs(g))
+    for g in groups: envs.extend(build_envs(g, lrns=lrns))
     for i, (where, k) in (faults.get("env") or {}).items():
         i = int(i)
         if i < len(envs): envs[i] = comp.FailingEnv(envs[i], where, k)
-    lrns = [build_learner(l, tuple(faults.get("lrn", {}).get(str(i))) if faults.get("lrn", {}).get(str(i)) else None) for i, l in enumerate(spec["lrns"])]
     vals = [build_evaluator(v, side, faults.get("val", {}).get(str(i))) for i, v in enumerate(spec["vals"])]
     if spec["triples"] == "cross":
         idx = [(e, l, v) for e in range(len(envs)) for l in range(len(lrns)) for v in range(len(vals))]
